@@ -243,13 +243,14 @@ def _cbf_cases():
     out = []
     for centre in ('peak', 'trough'):
         ft = shape_frame_type(centre, 1)
-        out.append(dict(
-            label='cycles,%s-centred' % centre,
-            params={'df_shape_features': ft, 'sig': ('arr', REAL), 'burst_method': ('const', 'cycles'),
-                    'burst_kwargs': 'none'},
-            requires=[row_invariant('df_shape_features', centre),
-                      "forall(j, 0 <= j < len(df_shape_features), df_shape_features['period'][j] > 0)"],
-            ensures=["len(result) == len(df_shape_features)"] + burst_feature_specs('df_shape_features', centre)))
+        for bl, bt in (('bk=None', 'none'), ('bk=dict', ('dict', BK_KEYS))):
+            out.append(dict(
+                label='cycles,%s-centred,%s' % (centre, bl),
+                params={'df_shape_features': ft, 'sig': ('arr', REAL), 'burst_method': ('const', 'cycles'),
+                        'burst_kwargs': bt},
+                requires=[row_invariant('df_shape_features', centre),
+                          "forall(j, 0 <= j < len(df_shape_features), df_shape_features['period'][j] > 0)"],
+                ensures=["len(result) == len(df_shape_features)"] + burst_feature_specs('df_shape_features', centre)))
         # amp: every subset of the documented keys of burst_kwargs (presence bits are symbolic)
         amp = "(value(burst_kwargs, 'amp_threshes') if present(burst_kwargs, 'amp_threshes') else (1, 2))"
         mnc = ("(None if present(burst_kwargs, 'min_burst_duration') else "
